@@ -57,6 +57,21 @@ pub struct CReq {
     pub more: bool,
     pub oneway: bool,
     pub script: Vec<String>,
+    /// C06: replacement for `bytes` + NUL (may contain NULs, may lack the terminator)
+    pub raw_full: Option<Vec<u8>>,
+}
+
+impl CReq {
+    pub fn wire(&self) -> Vec<u8> {
+        match &self.raw_full {
+            Some(r) => r.clone(),
+            None => {
+                let mut b = self.bytes.clone();
+                b.push(0);
+                b
+            }
+        }
+    }
 }
 
 fn flags(v: &mut Value, r: &Value) {
@@ -160,6 +175,7 @@ pub fn concretise(r: &Value, i: usize, salt: &str, pad: usize) -> CReq {
         more: r["more"].as_bool().unwrap_or(false),
         oneway: r["oneway"].as_bool().unwrap_or(false),
         script,
+        raw_full: None,
     }
 }
 
